@@ -158,7 +158,7 @@ func (w *World) newCall(m *Mgr, ti, oi int, op *Op) *Call {
 		c.ctx, c.cancel = context.WithCancel(context.Background())
 		w.addCancel(c)
 	case "deadline":
-		c.ctx, c.cancel = context.WithTimeout(context.Background(), time.Duration(op.DeadlineMs)*time.Millisecond)
+		c.ctx, c.cancel = context.WithTimeout(context.Background(), time.Duration(op.DeadlineMs)*time.Millisecond+71*time.Microsecond+time.Duration(13*c.Tok))
 		cc := c
 		context.AfterFunc(c.ctx, func() { w.ctxEnded(cc, "deadline") })
 	default:
